@@ -340,7 +340,7 @@ def run_known(rp, kf):
 
 # ------------------------------------------------------------------------------------------------
 
-THEOREMS = ["Props.C03.C03_parse_render_expr_partial", "Props.C03.C03_refuted_cmp_rhs_primary",
+THEOREMS = ["Props.C03.C03_parse_render_expr_ext", "Props.C03.C03_parse_render_expr_partial", "Props.C03.C03_refuted_cmp_rhs_primary",
             "Props.C03.C03_refuted_like_primary"]
 
 
@@ -351,7 +351,7 @@ def run(tier):
     try:
         with common.Lock():
             common.stage_harness()
-            ok_inst, ok_props, _, logs = common.coq_stage(rp, ["theories/Proofs/ExprParseP.vo"], "theories/Props/C03.v", THEOREMS)
+            ok_inst, ok_props, _, logs = common.coq_stage(rp, ["theories/Proofs/ExprParseP.vo", "theories/Proofs/ExprParseExtP.vo"], "theories/Props/C03.v", THEOREMS)
             if not ok_inst:
                 # the model itself must still build for the correspondence
                 ok_make, log_make = common.coq_make(["theories/Model/ExprParse.vo"])
